@@ -6,7 +6,7 @@ import importlib
 from pyvc.verify import Unit, verify_unit
 mod = importlib.import_module(sys.argv[1])
 u = Unit(getattr(mod, sys.argv[2]), json.loads(sys.argv[3]) if len(sys.argv) > 3 else {})
-res = verify_unit(u, os.environ.get('PYVC_REPO', '/repo'), {'unit_timeout_s': 600})
+res = verify_unit(u, os.environ.get('PYVC_REPO', '/repo'), {'unit_timeout_s': int(os.environ.get('UNIT_TIMEOUT', '600')), 'max_paths': int(os.environ.get('MAX_PATHS', '3000'))})
 for k, v in res.items():
     if k == 'obligations':
         for o in v:
